@@ -230,6 +230,8 @@ impl Future for GateWait {
                     i.ops[op].gate_polled = true;
                     i.ops[op].suspend_step = rt::steps();
                     i.ops[op].last_poll_task = rt::current();
+                    let cur = rt::current();
+                    i.ops[op].last_poll_stage_seq = i.callers.iter().find(|c| c.task == cur).map(|c| c.stage_seq).unwrap_or(0);
                 }
                 false
             }
@@ -266,6 +268,9 @@ impl Future for SelfWake {
             o.waiting_self = true;
             o.suspend_step = rt::steps();
             o.last_poll_task = rt::current();
+            let cur = rt::current();
+            let seq = i.callers.iter().find(|c| c.task == cur).map(|c| c.stage_seq).unwrap_or(0);
+            i.ops[this.op].last_poll_stage_seq = seq;
         });
         this.w.hist(|| format!("self-wake during the poll (op {})", this.op));
         cx.waker().wake_by_ref();
@@ -1545,6 +1550,8 @@ impl CallerEnv {
                     w.inv(*id);
                     let f = h.future_desync(make_fut_job(&w, *id, body, &self.hs));
                     w.ret(*id);
+                    // (a shrunk program may reuse a slot that still holds a future: that future is dropped, like any other)
+                    self.drop_slot(*slot as usize, false);
                     self.slots[*slot as usize] = Some(Slot::Fut { op: *id, kind: Kind::FutDesync, fut: FutH::Sched(f), flag: Arc::new(FlagWaker { flag: AtomicBool::new(false) }) });
                 }
             }
@@ -1554,6 +1561,8 @@ impl CallerEnv {
                     w.inv(*id);
                     let f = h.future_sync(make_fut_job(&w, *id, body, &self.hs));
                     w.ret(*id);
+                    // (a shrunk program may reuse a slot that still holds a future: that future is dropped, like any other)
+                    self.drop_slot(*slot as usize, false);
                     self.slots[*slot as usize] = Some(Slot::Fut { op: *id, kind: Kind::FutSync, fut: FutH::Boxed(f), flag: Arc::new(FlagWaker { flag: AtomicBool::new(false) }) });
                 }
             }
@@ -1577,6 +1586,8 @@ impl CallerEnv {
                         Res { op: id2 as u32, seen }
                     });
                     w.ret(*id);
+                    // (a shrunk program may reuse a slot that still holds a future: that future is dropped, like any other)
+                    self.drop_slot(*slot as usize, false);
                     self.slots[*slot as usize] = Some(Slot::Fut { op: *id, kind: Kind::After, fut: FutH::Boxed(f), flag: Arc::new(FlagWaker { flag: AtomicBool::new(false) }) });
                 }
             }
@@ -2252,7 +2263,7 @@ fn root_main(w: Arc<World>) {
             let ops = ops.clone();
             let hs = handles.clone();
             let gidx = w.with(|i| {
-                i.callers.push(CallerSt { phase: pi, idx: ci, task: usize::MAX, stage: Stage::Idle, pos: 0 });
+                i.callers.push(CallerSt { phase: pi, idx: ci, task: usize::MAX, stage: Stage::Idle, pos: 0, stage_seq: 1 });
                 i.callers.len() - 1
             });
             let h = vthread::spawn_local(&format!("caller{}.{}", pi, ci), move || caller_main(w2, gidx, ci, ops, hs, catch_panics));
